@@ -56,11 +56,14 @@ theorem C13_late_reply_discarded {c : Cfg} {spec s} (hl : c.legacy = false) (h :
   simp [step, ha, hd, hl]
 
 /-- The actor is never blocked forever in `Reply`: some case of its select is enabled, or the asker's timer has
-    fired and the asker's very next atom (`close(done)`) enables the `done` case. -/
+    fired and the asker's very next atom (`close(done)`) enables the `done` case, or the request is an AskChannel
+    whose caller holds the channel and has not started to receive — then the caller's `read` atom is enabled and the
+    hand-off follows (a reply to an AskChannel waits for its reader, however late that reader is). -/
 theorem C13_reply_never_stuck {c : Cfg} {spec s} (hl : c.legacy = false) (h : Reach c spec s) {i v : Nat}
     (ha : s.actor = .replying i v) :
     ((step c s .replySend).isSome = true ∧ (s.asker i).chClosed = false) ∨ (step c s .replyDone).isSome = true ∨
-      ((s.asker i).pc = .fired ∧ (step c s (.giveUp i)).isSome = true) :=
+      ((s.asker i).pc = .fired ∧ (step c s (.giveUp i)).isSome = true) ∨
+      ((s.asker i).pc = .holding ∧ (step c s (.read i)).isSome = true) :=
   (reach_inv hl h).reply_progress hl ha
 
 /-- … and it keeps serving: whenever the actor is not idle or its mailbox is not empty, an atom of the actor is
@@ -68,7 +71,8 @@ theorem C13_reply_never_stuck {c : Cfg} {spec s} (hl : c.legacy = false) (h : Re
 theorem C13_actor_keeps_serving {c : Cfg} {spec s} (hl : c.legacy = false) (h : Reach c spec s)
     (hw : s.actor ≠ .idle ∨ s.mbox ≠ []) :
     (step c s .take).isSome = true ∨ (step c s .compute).isSome = true ∨ (step c s .replySend).isSome = true ∨
-      (step c s .replyDone).isSome = true ∨ ∃ i, (s.asker i).pc = .fired ∧ (step c s (.giveUp i)).isSome = true := by
+      (step c s .replyDone).isSome = true ∨ (∃ i, (s.asker i).pc = .fired ∧ (step c s (.giveUp i)).isSome = true) ∨
+      ∃ i, (s.asker i).pc = .holding ∧ (step c s (.read i)).isSome = true := by
   cases ha : s.actor with
   | idle =>
     rcases hw with hw | hw
@@ -78,10 +82,11 @@ theorem C13_actor_keeps_serving {c : Cfg} {spec s} (hl : c.legacy = false) (h : 
       | cons i rest => left; simp [step, ha, hm]
   | computing i => right; left; simp [step, ha]
   | replying i v =>
-    rcases C13_reply_never_stuck hl h ha with h1 | h1 | h1
+    rcases C13_reply_never_stuck hl h ha with h1 | h1 | h1 | h1
     · exact Or.inr (Or.inr (Or.inl h1.1))
     · exact Or.inr (Or.inr (Or.inr (Or.inl h1)))
-    · exact Or.inr (Or.inr (Or.inr (Or.inr ⟨i, h1⟩)))
+    · exact Or.inr (Or.inr (Or.inr (Or.inr (Or.inl ⟨i, h1⟩))))
+    · exact Or.inr (Or.inr (Or.inr (Or.inr (Or.inr ⟨i, h1⟩))))
 
 /-- The pinned code (the timeout path closes `ch`, `Reply` is a plain send) does reach the panic state: the
     late-reply schedule. -/
@@ -106,6 +111,13 @@ example : ∃ s, Reach { mcap := 1, reply := replyFn, legacy := false }
 example : ∃ s, Reach { mcap := 0, reply := replyFn, legacy := false } (fun i => (.timeout, payloadOf i, 0)) s ∧
     s.actor = .replying 0 701 ∧ (s.asker 0).pc = .fired :=
   ⟨_, reach_of_run [.call 0, .send 0, .compute, .fire 0] rfl, rfl, rfl⟩
+
+/-- an AskChannel caller that reads late: the actor waits in `Reply` for it, the value arrives once it reads -/
+example : ∃ s, Reach { mcap := 0, reply := replyFn, legacy := false } (fun i => (.channelLate, payloadOf i, 0)) s ∧
+    s.actor = .replying 0 701 ∧ (s.asker 0).pc = .holding ∧
+    (runActs { mcap := 0, reply := replyFn, legacy := false } s [.read 0, .replySend, .finish 0]).map (fun t => (t.asker 0).pc)
+      = some (.retV 701) :=
+  ⟨_, reach_of_run [.call 0, .send 0, .compute] rfl, rfl, rfl, rfl⟩
 
 /-! ## the tie: protocol skeletons and facts regenerated from the repository on every run -/
 
